@@ -1,1 +1,43 @@
-fn main() { vkit::main(vec![]) }
+mod alloc;
+mod c12;
+mod c13;
+mod cbor_gen;
+mod targets;
+
+use vkit::Property;
+
+#[global_allocator]
+static GLOBAL: alloc::Counting = alloc::Counting;
+
+fn main() {
+    let args: Vec<String> = std::env::args().collect();
+    if args.len() >= 3 && args[1] == "--c13-child" {
+        c13::child_main(&args[2]);
+    }
+    vkit::main(vec![
+        Property {
+            id: "C12",
+            level: "exploration",
+            rule: "Law A (decode(encode(v)) == documented normal form of v; encoder deterministic) over proptest-generated values: ABI CBOR Value trees (depth<=6, boundary integers 0/23/24/255/256/65535/65536/2^32+-1/2^63/2^64-1/-1/-24/-25/.../i64::MIN, every float class incl. NaN payloads, +-0, subnormals, f16/f32/f64-exact, integral floats up to 1e39), Edict CanonicalValueV1, serde DTOs through encode_cbor/decode_cbor, a record using every Reader/Writer primitive. Law B (decode(b)=Ok(v) => encode(v)==b) for canonical-form codecs (ABI value, Edict value, intent envelope, intent log, ingress-envelope retention v2, 14 WAL payload records): RNG-free enumeration of EVERY byte string of length 0..=2 for all of them and of length 3 for the two CBOR value codecs (16.8M strings each); structure-aware mutation of valid CBOR (widen heads, swap/duplicate map entries, indefinite lengths, tags, float width changes, NaN payload/sign, -0.0, int-as-float, trailing bytes); byte-level mutation (bit flips, splices, truncation, adversarial length fields) of encoder-produced seeds for every codec. Round-trip-only group (scene CBOR, MBUS frames v1/v2): Law A on accepted mutants. Non-trivial = nesting>=2 or boundary number (Law A); accepted input (Law B) - counted per distinct (codec, bytes).",
+            assumptions: &[
+                "ABI normal form: integral floats within the CBOR integer range become integers, NaN becomes the canonical NaN, -0.0 becomes 0, map order by encoded key (documented in canonical.rs / js-cbor-mapping.md)",
+                "ABI integer domain is i64 U u64 (documented ciborium Integer limit)",
+                "IngressEnvelope Law B is claimed for the v2 magic only (v1 is a documented legacy reader); codec.rs read_f32_le normalises on read by design",
+                "DTO-level Law B is not claimed (serde may ignore unknown fields); DTO encodings are checked at the value level",
+            ],
+            subs: c12::subs,
+            max_shards: 16,
+        },
+        Property {
+            id: "C13",
+            level: "exploration",
+            rule: "Every decoder of C12 plus WscFile::from_bytes+validate_wsc+every WarpView accessor and recover_wal_segment_bytes, fed (a) a deterministic adversarial template grid: declared lengths 2^16..2^64-1 in every CBOR major type and in every aligned 4/8-byte window of valid encodings (LE and BE), nesting depth 50..10^6 through arrays, map values, map keys, tags and indefinite markers, every truncation cut of valid encodings, 1 MiB tails; (b) proptest-seeded byte mutants of valid encodings; (c) random bytes up to 4 KiB. Each input runs in an isolated child process (counting global allocator, 64 MiB decode-thread stack, RLIMIT_AS 6 GiB). Oracle: result is a value or typed error; no panic (caught in child, reported with message), no process death (SIGSEGV = stack overflow, SIGABRT = abort/alloc failure), no result-less 20 s, and peak live allocation during the call <= 1 MiB + 1024 x input_len (+ the codec's documented fixed cap: eintlog MAX_FRAME_LEN). Non-trivial = accepted input or structure-aware derivative of a valid encoding; distinct by (codec, bytes).",
+            assumptions: &[
+                "1024x proportionality is deliberately generous (a 1-byte CBOR item legitimately becomes a ~32-byte Value node, then a serde_value node); a pre-allocation driven by a declared length exceeds it",
+                "the child isolates crashes; a crash is attributed to the last started input",
+            ],
+            subs: c13::subs,
+            max_shards: 16,
+        },
+    ])
+}
